@@ -384,11 +384,14 @@ int hwloc_bitmap_sscanf(struct hwloc_bitmap_s *set, const char * __hwloc_restric
   int ulongcount;
   int infinite = 0;
 
-  /* count how many substrings there are */
+  /* count how many substrings there are, every comma (including a leading one) starts a new one */
   count++;
-  while ((current = strchr(current+1, ',')) != NULL)
+  while ((current = strchr(current, ',')) != NULL)
       HWLOC_VERIF_LOOP(hwloc_bitmap_sscanf_1)
+  {
     count++;
+    current++;
+  }
 
   current = string;
   if (!strncmp("0xf...f", current, 7)) {
